@@ -5,6 +5,7 @@ NATIVE = {"mode": "native"}
 PROPS = {
     "C17": {
         "level": "exploration",
+        "technique": 'runtime monitoring: RFC 1982 serial arithmetic compared with a wide-integer model, exhaustive on blocks around the wrap points and random elsewhere, in debug and release builds',
         "features": ["hooks"],
         "stages": [
             {"mode": "native", "tiers": ["quick"]},
@@ -20,6 +21,7 @@ PROPS = {
     },
     "C18": {
         "level": "exploration",
+        "technique": 'runtime monitoring: Base16/32hex/64 encoders and decoders against independent RFC 4648 codecs, exhaustive over short inputs and texts of a reduced alphabet, mutation of valid texts; offline recomputation with Python base64; AddressSanitizer',
         "features": ["hooks"],
         "stages": [
             {"mode": "native"},
@@ -36,6 +38,7 @@ PROPS = {
     },
     "C03": {
         "level": "exploration",
+        "technique": 'runtime monitoring: every name constructor, builder and operation checked against a label-list model and an independent validator, exhaustive over builder states near the 255-octet limit; AddressSanitizer and Miri',
         "features": ["hooks"],
         "stages": [
             {"mode": "native"},
@@ -53,6 +56,7 @@ PROPS = {
     },
     "C05": {
         "level": "exploration",
+        "technique": 'runtime monitoring: per-type RDATA values from an RFC-derived layout table taken through parse/compose/rdlen/canonical/flatten and through the three compressors, compared with an independent table-driven codec; mutated and nested-hostile RDATA; SvcParamsBuilder push orders; AddressSanitizer and Miri',
         "features": ["hooks"],
         "stages": [
             {"mode": "native"},
@@ -69,6 +73,7 @@ PROPS = {
     },
     "C04": {
         "level": "exploration",
+        "technique": 'runtime monitoring: Eq/Ord/Hash coherence and canonical order of names and record data checked pairwise against reference comparators over collision-prone pools; AddressSanitizer',
         "features": ["hooks"],
         "stages": [
             {"mode": "native"},
@@ -84,6 +89,7 @@ PROPS = {
     },
     "C02": {
         "level": "exploration",
+        "technique": "runtime monitoring: random builder operation sequences on every target x compressor, a model of the successful pushes compared with what an independent reader and the library's reader reconstruct; failed-push identity, stream-prefix and size-boundary monitors; AddressSanitizer",
         "features": ["hooks"],
         "stages": [
             {"mode": "native"},
@@ -100,6 +106,7 @@ PROPS = {
     },
     "C01": {
         "level": "exploration",
+        "technique": 'runtime monitoring: every read-side operation driven over structure-aware mutants, typed-hostile and random messages with panic/hang/overrun monitors (catch_unwind, CPU watchdog, AddressSanitizer, Miri), a traversal-twice oracle and a differential against an independent wire walker',
         "features": ["crypto", "hooks"],
         "stages": [
             {"mode": "native", "cpu_budget": 30},
@@ -119,6 +126,7 @@ PROPS = {
     },
     "C19": {
         "level": "exploration",
+        "technique": 'runtime monitoring: differential execution of the new-API codec and the established one over the same byte strings, names, build scripts and OPT option sequences, with an independent wire walker as referee for pointers; AddressSanitizer and Miri',
         "features": ["crypto", "hooks"],
         "stages": [
             {"mode": "native", "cpu_budget": 30},
@@ -137,6 +145,7 @@ PROPS = {
     },
     "C06": {
         "level": "exploration",
+        "technique": 'runtime monitoring: records of every zone-file type written in the three display kinds and the RFC 3597 form and read back by the zone-file reader, compared with the original through an independent codec; AddressSanitizer',
         "features": ["crypto", "hooks"],
         "stages": [
             {"mode": "native"},
@@ -151,6 +160,7 @@ PROPS = {
     },
     "C07": {
         "level": "exploration",
+        "technique": 'runtime monitoring: hostile byte strings through the zone-file reader with panic/hang monitors, and metamorphic layout rewrites of generated logical files whose entries must be equal; AddressSanitizer and Miri',
         "features": ["crypto", "hooks"],
         "stages": [
             {"mode": "native", "cpu_budget": 30},
@@ -169,7 +179,7 @@ PROPS = {
     },
     "C08": {
         "level": "exploration",
-        "technique": "runtime monitoring: the real zone tree answered over six construction histories, compared per query with an executable RFC 1034/4592 lookup model",
+        "technique": "runtime monitoring: the real zone tree answered over seven construction histories (builder, zone file, updater replace/incremental, write interface, abandoned writers), compared per query with an executable RFC 1034/4592 lookup model",
         "features": ["crypto", "hooks"],
         "stages": [
             {"mode": "native", "cpu_budget": 60},
@@ -299,7 +309,7 @@ PROPS = {
     },
     "C14": {
         "level": "exploration",
-        "technique": "runtime monitoring: the validator run against a mock upstream serving a hierarchy signed at run time, with fault injection on answers and upstream and ground truth by construction",
+        "technique": "runtime monitoring: the validator run against a mock upstream serving a hierarchy signed at run time, with fault injection on answers and upstream and ground truth by construction; one validation context kept alive across a key withdrawal and a signature expiry (real time)",
         "features": ["crypto", "hooks"],
         "stages": [
             {"mode": "native", "cpu_budget": 400},
